@@ -1423,3 +1423,140 @@ def rule_barrier_all(mod, rep):
         rep.scope([f.name])
         rep.check(not esc, "BARRIER-ALL", "%s#barrier" % f.name, "every return lies behind the barrier",
                   "%s can return at %s without arriving at the barrier the other threads wait at: they block for ever" % (f.name, esc[0].loc if esc else ""), esc[0].loc if esc else f.file, f.name)
+
+
+# ---------------------------------------------------------------------------------------------------------------------------------
+# MAX1-SCAN (C12 C13): i?max1_ looks at every component and returns a 1-based position
+# ---------------------------------------------------------------------------------------------------------------------------------
+def rule_max1_scan(mod_unused, rep, config="pthread"):
+    from .. import build as _b, ir as _ir
+    from .more import _PRED
+    rep.rule("MAX1-SCAN", "icmax1_ / izmax1_ (argmax of |re x_i| for ?lacon_): analysed on the two units compiled with the configuration's flags after function-scope statics that are "
+             "provably written before read (every load dominated by a store, sa/promote) were promoted to SSA registers - f2c keeps icmax1_'s loop counters in statics. Per "
+             "counted loop: (a) the trip count, evaluated from start, step and exit predicate for n = 2..9, is n - 1 (component 1 initialises the maximum; an unrolled loop "
+             "without clean-up drops the last component for even n); (b) in the unit-stride loop the compared component is cx[i - 1] for the induction value i that is recorded "
+             "as the result, and the recorded value is the induction variable itself (the callers subtract 1: a 0-based result selects the neighbour of the largest component)", floor=4)
+    try:
+        um = _ir.Module(_b.build_units(["icmax1.c", "izmax1.c"], config=config))
+    except Exception as e:
+        rep.brk("ANALYSIS-BROKEN MAX1-SCAN: %s" % e)
+        return
+    for nm in ("icmax1_", "izmax1_"):
+        f = um.funcs.get(nm)
+        if f is None or not f.blocks:
+            rep.brk("ANALYSIS-BROKEN MAX1-SCAN: %s not found" % nm)
+            continue
+        rep.scope([nm])
+        P = _Poly(f)
+        LI = _loop_info(f)
+        kcx = f.pindex("cx")
+        if not LI:
+            rep.fail("MAX1-SCAN", "%s#loops" % nm, "no counted loop with its exit test in the header was found: the scan over the components is not of the form the rule can bound "
+                     "(start, constant step, exit predicate on the counter)", f.file, nm)
+            continue
+        nloop = 0
+        for pid, (init, pred, bound, step, body) in sorted(LI.items()):
+            nloop += 1
+            ph = f.inst[pid]
+            pi = P.of(init); pb = P.of(bound)
+            syms = sorted({t for k in list(pi) + list(pb) for t in k})
+
+            def ev(poly, nval):
+                tot = 0
+                for k, v in poly.items():
+                    tot += v * (nval ** len(k))
+                return tot
+            trips_ok = True; got = []
+            if len(syms) > 1 or pred not in _PRED:
+                trips_ok = False
+            else:
+                for nval in range(2, 10):
+                    i = ev(pi, nval); b = ev(pb, nval); cnt = 0
+                    while _PRED[pred](i, b) and cnt < 50:
+                        cnt += 1; i += step
+                    got.append(cnt)
+                    if cnt != nval - 1:
+                        trips_ok = False
+            rep.check(trips_ok, "MAX1-SCAN", "%s#trips@%d" % (nm, nloop), "n - 1 iterations for n = 2..9",
+                      "the scan loop at %s does not run n - 1 times (iterations for n = 2..9: %s; start %s, step %d, bound %s): components are skipped or read past the end"
+                      % (ph.loc, got, pfmt(pi), step, pfmt(pb)), ph.loc, nm)
+            # loads of cx components in the body, index as a polynomial of the induction variable
+            t = "v%d" % pid
+            idxs = []
+            for b in body:
+                for x in f.blocks[b].insts:
+                    if x.op == "load" and any(p and p[0] == ("A", kcx) for p in f.addr_paths(x)):
+                        gi = gep_index_first(f, x.ops[0])
+                        if gi is not None:
+                            idxs.append((x, P.of(gi)))
+            # position 1 is component 0: the index polynomial of a component addressed through the counter vanishes at i = 1 (cx[i - 1], cx[(i - 1) * incx])
+            viaI = [(x, p) for x, p in idxs if any(t in k for k in p) and not any(_is_ssa_sym(t2) for k in p for t2 in k if t2 != t)]
+            if viaI:
+                def at1(p):
+                    out = {}
+                    for k, v in p.items():
+                        k2 = tuple(z for z in k if z != t)
+                        out[k2] = out.get(k2, 0) + v
+                    return {k: v for k, v in out.items() if v}
+                badc = [(x, p) for x, p in viaI if at1(p)]
+                rep.check(not badc, "MAX1-SCAN", "%s#component@%d" % (nm, nloop), "the component compared for counter i is component i - 1 (0-based)",
+                          "the component compared at %s is cx[%s] for counter i, and i is what is recorded as the result: position 1 does not correspond to the first component - the "
+                          "result is not the 1-based index the callers expect" % (badc[0][0].loc if badc else "", pfmt(badc[0][1]).replace(t, "i") if badc else ""),
+                          viaI[0][0].loc, nm)
+            # components addressed through a second cursor of the same loop (ix += incx): component index a0 + k*s in iteration k, counter i0 + k:
+            # the counter is the 1-based position of the component iff a0 == (i0 - 1) * s
+            for q in f.blocks[ph.bb.id].insts:
+                if q.op != "phi" or q.i == pid or not (q.ty or "").startswith("i"):
+                    continue
+                tq = "v%d" % q.i
+                viaC = [(x, p) for x, p in idxs if p.get((tq,), 0) == 1 and not any(tq in k and len(k) > 1 for k in p)
+                        and not any(_is_ssa_sym(t2) for k in p for t2 in k if t2 != tq)]
+                if not viaC:
+                    continue
+                qi = [o for o, bb in zip(q.ops, q.inb) if bb not in body]
+                qn = [o for o, bb in zip(q.ops, q.inb) if bb in body]
+                if len(qi) != 1 or not qn:
+                    continue
+                nx = strip_casts(f, qn[0])
+                if nx[0] != "v" or f.inst[nx[1]].op != "add":
+                    continue
+                oth = [o for o in f.inst[nx[1]].ops if strip_casts(f, o) != ["v", q.i]]
+                if len(oth) != 1:
+                    continue
+                sp = P.of(oth[0]); a_init = P.of(qi[0])
+                if len(pi) > 1 or any(k for k in pi):
+                    continue
+                i0 = pi.get((), 0)
+                for x, pidx in viaC:
+                    d = {k: v for k, v in pidx.items() if k != (tq,)}
+                    a0 = padd(a_init, d, 1)
+                    want = pmul(sp, pconst(i0 - 1))
+                    okc = (padd(a0, want, -1) == {})
+                    rep.check(okc, "MAX1-SCAN", "%s#cursor@%d" % (nm, nloop), "the counter is the 1-based position of the component the cursor addresses",
+                              "the strided scan at %s compares component %s + k*(%s) in its k-th iteration while the counter, which is recorded as the result, is %d + k: the result "
+                              "is not the 1-based position of that component (expected first component index %s)" % (x.loc, pfmt(a0), pfmt(sp), i0, pfmt(want)), x.loc, nm)
+                    break
+            # recorded result: int phis of the header (other than the counter) take, inside the body, only the counter or their own value
+            for q in f.blocks[ph.bb.id].insts:
+                if q.op != "phi" or q.i == pid or not (q.ty or "").startswith("i"):
+                    continue
+                leaves = []
+                work = [o for o, bb in zip(q.ops, q.inb) if bb in body]; seen = set()
+                while work:
+                    o = strip_casts(f, work.pop())
+                    if o[0] == "v" and o[1] in seen:
+                        continue
+                    if o[0] == "v":
+                        seen.add(o[1])
+                        x = f.inst[o[1]]
+                        if x.op == "phi" and x.bb.id in body and x.i not in (q.i, pid):
+                            work.extend(x.ops); continue
+                        if x.op == "select":
+                            work.extend(x.ops[1:]); continue
+                    leaves.append(o)
+                bad = [o for o in leaves if not (o[0] == "v" and o[1] in (q.i, pid))]
+                # the strided loop has a second cursor (ix) that advances by incx: not a recorded position
+                if any(o[0] == "v" and f.inst[o[1]].op == "add" and any(strip_casts(f, z) == ["v", q.i] for z in f.inst[o[1]].ops) for o in bad):
+                    continue
+                rep.check(not bad, "MAX1-SCAN", "%s#result@%d/%d" % (nm, nloop, q.i), "the recorded position is the counter itself",
+                          "the position recorded in the loop at %s is not the loop counter (which is the 1-based index of the component just compared)" % ph.loc, ph.loc, nm)
